@@ -108,7 +108,7 @@ CONFIGS = [
     {"name": "entry", "T": (0, 0, 0), "e": 0, "fam": "entry", "share": (1 / 12, 1 / 64)},
     {"name": "hist_apply_translation", "T": (64, -32, 16), "e": 0, "fam": "hist", "share": (1 / 24, 1 / 128)},
     {"name": "hist_vertices_iadd", "T": (-16, 48, 32), "e": 0, "fam": "hist", "share": (1 / 24, 1 / 128)},
-    {"name": "hist_apply_scale", "T": (0, 0, 0), "e": 2, "fam": "hist", "share": (1 / 24, 1 / 128)},
+    {"name": "hist_apply_scale", "T": (0, 0, 0), "e": 10, "fam": "hist", "share": (1 / 24, 1 / 128)},
 ]
 DIRLEN_EXP = (-20, -10, 10, 20)
 
@@ -238,10 +238,30 @@ def mesh_table(tier):
     # indices are not indices into the referenced vertices), one at the centre of the cube (much nearer to interior
     # query points than any corner), two outside.  nearest.vertex answers over all of mesh.vertices, the
     # surface queries must not let these vertices shrink their candidate radius.
+    # (round 2) a flat double pyramid over the triangle (0,0) (4,0) (0,4) with apexes (2,1,+-1): long thin faces
+    # with obtuse corners meeting at a sharp rim (normals of the two sides more than 90 degrees apart).  Next to
+    # the rim the closest point is on an edge / vertex and the foot of the perpendicular on the plane of the
+    # reported face lies outside that face: the sign of the signed distance has to come from containment there.
+    # Every odd-quarter point within 3/2 of its bounding box is queried (the affected points are few).
+    rim = [(0, 0), (4, 0), (0, 4)]
+    flat = []
+    for j in range(3):
+        p, q = rim[j], rim[(j + 1) % 3]
+        flat.append([p + (0,), q + (0,), (2, 1, 1)])
+        flat.append([q + (0,), p + (0,), (2, 1, -1)])
+    verts, faces = index_mesh(flat)
+    out.append({"name": "flat_double_pyramid_sharp_rim", "verts": verts, "faces": faces, "closed": True,
+                "snap_ray": SNAP_RAY, "snap_pt": SNAP_PT, "snap_d2": SNAP_D2, "sampled": 0.3, "points": "all_near"})
+    # (round 2) the cube also carries a zero-area face in the MIDDLE of its face list: the T-junction sliver
+    # [a, midpoint, b] lying on the edge a b of two real faces.  It cannot be crossed through its interior and is
+    # never strictly nearer than the edge it lies on, so no answer may change - but every face after it has an
+    # index one higher than its rank among the triangles with area.
     verts, faces = index_mesh(box((0, 0, 0), (2, 2, 2)))
-    out.append({"name": "cube_unreferenced_vertices",
-                "verts": [[3, 3, 3]] + verts + [[1, 1, 1], [5, 1, 1], [-2, -2, -2]],
-                "faces": [[i + 1 for i in f] for f in faces], "closed": True,
+    sliver = [verts.index([0, 0, 0]) + 1, len(verts) + 4, verts.index([2, 0, 0]) + 1]
+    faces = [[i + 1 for i in f] for f in faces]
+    out.append({"name": "cube_sliver_face_unreferenced_vertices",
+                "verts": [[3, 3, 3]] + verts + [[1, 1, 1], [5, 1, 1], [-2, -2, -2], [1, 0, 0]],
+                "faces": faces[:5] + [sliver] + faces[5:], "closed": True,
                 "snap_ray": SNAP_RAY, "snap_pt": SNAP_PT, "snap_d2": SNAP_D2,
                 "sampled": 0.6})     # 0.6 of the usual sample, thorough four times that (the plain cube has the full product)
     # (audit round) eleven corner tetrahedra in a row along x (44 faces, eleven bodies; a ray along x near the
@@ -373,8 +393,11 @@ def point_items(tier, mi, me, rs):
         odd = [(P[0] + 4 * sh, P[1], P[2]) for sh in me.get("xshifts", [0]) for P in PTS_ODD]
         inbox = [P for P in odd if all(lo[a] < P[a] < hi[a] for a in range(3))]
         # dense inside the bounding box of the near bodies (corners, reentrant edges, the gap between bodies)
-        pts = [inbox[j] for j in rs.choice(len(inbox), min(int(800 * mult), len(inbox)), replace=False)]
-        pts += [odd[j] for j in rs.choice(len(odd), int(500 * mult), replace=False)]
+        if me.get("points") == "all_near":
+            pts = [P for P in odd if all(lo[a] - 6 <= P[a] <= hi[a] + 6 for a in range(3))]
+        else:
+            pts = [inbox[j] for j in rs.choice(len(inbox), min(int(800 * mult), len(inbox)), replace=False)]
+            pts += [odd[j] for j in rs.choice(len(odd), int(500 * mult), replace=False)]
         pts = sorted(set(pts))
     return [{"kind": "pt", "mi": mi, "P": list(P), "k": 4} for P in pts]
 
@@ -456,23 +479,28 @@ class FunctionEngine:
         import trimesh.ray.ray_triangle as rt
         self.fn = rt.ray_triangle_id
         self.tri = np.array(m.triangles, dtype=np.float64)
+        # Without normals the function validates its candidates and raises ValueError("Invalid triangles!") on a
+        # zero-area one by design; for a mesh that has such a face the normals are handed over (still no tree).
+        self.kw = {}
+        if not trimesh.triangles.nondegenerate(self.tri).all():
+            self.kw = {"triangles_normal": np.array(m.face_normals, dtype=np.float64)}
 
     def intersects_id(self, o, d, multiple_hits=True):
-        it, ir, loc = self.fn(self.tri.copy(), o, d, multiple_hits=multiple_hits)
+        it, ir, loc = self.fn(self.tri.copy(), o, d, multiple_hits=multiple_hits, **self.kw)
         return it, ir, loc
 
     def intersects_location(self, o, d, multiple_hits=True):
-        it, ir, loc = self.fn(self.tri.copy(), o, d, multiple_hits=multiple_hits)
+        it, ir, loc = self.fn(self.tri.copy(), o, d, multiple_hits=multiple_hits, **self.kw)
         return loc, ir, it
 
     def intersects_first(self, o, d):
-        it, ir, _ = self.fn(self.tri.copy(), o, d, multiple_hits=False)
+        it, ir, _ = self.fn(self.tri.copy(), o, d, multiple_hits=False, **self.kw)
         out = -np.ones(len(o), dtype=np.int64)
         out[np.asarray(ir, dtype=np.int64)] = it
         return out
 
     def intersects_any(self, o, d):
-        _, ir, _ = self.fn(self.tri.copy(), o, d, multiple_hits=True)
+        _, ir, _ = self.fn(self.tri.copy(), o, d, multiple_hits=True, **self.kw)
         out = np.zeros(len(o), dtype=bool)
         out[np.asarray(ir, dtype=np.int64)] = True
         return out
@@ -902,7 +930,7 @@ def main(argv):
     need["containment_observations_native:mesh.contains"] = 250
     need["points_whose_reported_nearest_vertex_is_unreferenced"] = 40
     need["rays_more_than_20_hits"] = 8
-    for me in meshes[-2:]:
+    for me in meshes[-3:]:
         if per_mesh[me["name"]].get("ray_validated", 0) < 300 or per_mesh[me["name"]].get("pt_validated", 0) < 100:
             need["records_of_" + me["name"]] = 1          # never counted: reports the mesh as short
     short = {k: n.get(k, 0) for k, v in need.items() if n.get(k, 0) < v}
@@ -989,6 +1017,8 @@ def main(argv):
         "translation by an exact integer offset, scaling of the scene by a power of two and the length of the "
         "direction vector do not change any answer: those configurations are judged by TLC in the lattice frame "
         "(offset subtracted and scale divided out exactly before snapping)",
+        "a zero-area face lying on an edge of a face with area (T-junction sliver) is crossed by no ray in general "
+        "position and is the segment of its corners for the distance queries (ties with the real faces accepted)",
         "vertices no face refers to are vertices for nearest.vertex (it answers over mesh.vertices) and are not "
         "part of the surface for every other query",
         "rays / points not in general position (decided by TLC) are excluded, as the property's quantifier does",
